@@ -286,10 +286,12 @@ def run_date_int(case, ctx):
 
 
 # ---------------------------------------------------------------- broadcast methods and properties
-TYPES = {"str": str, "int": int, "float": float, "date": date}
+from datetime import datetime as _dt
+# floatmix / datetimemix: columns typed float / datetime that still hold elements of a lower rung (serif keeps raw values)
+TYPES = {"str": str, "int": int, "float": float, "date": date, "floatmix": float, "datetimemix": _dt}
 EXCLUDED = {"today", "fromisoformat", "fromordinal", "fromisocalendar", "fromtimestamp", "fromhex", "from_bytes",
-            "max", "min", "resolution", "maketrans"}
-PROBE = {"str": "a b", "int": 5, "float": 1.5, "date": date(2020, 2, 28)}
+            "max", "min", "resolution", "maketrans", "now", "utcnow", "combine", "strptime", "utcfromtimestamp"}
+PROBE = {"str": "a b", "int": 5, "float": 1.5, "date": date(2020, 2, 28), "floatmix": 1.5, "datetimemix": _dt(2020, 2, 28, 12, 30)}
 ARGS = [(), ("a",), ("b", "x"), (1,), (3, "*"), (5,), (["x", "y"],), ("%Y-%m",), ("ab",), ("utf-8",), (2, "big"),
         ({"a": 1},), ("", ), (" ",), ("a", 1), (0,)]
 KWARGS = [{}, {}, {}, {"year": 2001}, {"sep": "a"}, {"maxsplit": 1}, {"keepends": True}, {"fillchar": "-"}]
@@ -298,6 +300,8 @@ METHOD_EL = {
     "int": st.one_of(st.integers(-5, 300), st.sampled_from([0, 2 ** 40, -1, -2, -1, 0])),
     "float": st.one_of(V.small_floats, st.sampled_from([0.1, -0.0, 2.0, 1e10, 7.0])),
     "date": V.dates,
+    "floatmix": st.one_of(V.small_floats, st.integers(-3, 9), st.sampled_from([0.1, 2 ** 53 + 1, True])),
+    "datetimemix": st.one_of(V.datetimes, V.dates),
 }
 
 
